@@ -144,8 +144,21 @@ func (bc *Blockchain) Synchronize() {
 			return nil
 		})
 
+		// The chain to synchronize to is the heaviest one announced by a peer that is still connected (or our own): what
+		// a peer that has left announced can not be requested from anybody, and would keep us from asking the
+		// remaining peers for a chain that is heavier than ours but not higher than that announcement.
+		syncHeight, syncDiff := stats.TopHeight, stats.CumulativeDiff
+		bc.P2P.RLock()
+		for _, conn := range bc.P2P.Connections {
+			conn.PeerData(func(d *p2p.PeerData) {
+				if d.Stats.CumulativeDiff.Cmp(syncDiff) > 0 {
+					syncHeight, syncDiff = d.Stats.Height, d.Stats.CumulativeDiff
+				}
+			})
+		}
+		bc.P2P.RUnlock()
 		bc.SyncMut.Lock()
-		syncDiff := bc.SyncDiff
+		bc.SyncHeight, bc.SyncDiff = syncHeight, syncDiff
 		bc.SyncMut.Unlock()
 
 		// only request queued block if we aren't synchronized with the longest chain
